@@ -111,20 +111,20 @@ var checks = []Check{
 	{
 		ID: "C07", Pkg: "checks/c07", Instr: coreInstr,
 		QuickRuns: 40000, ThoroughRuns: 2000000, QuickBudgetS: 60, ThoroughBudgetS: 1200, ShrinkS: 45,
-		Rule: "one run = 2-5 archetype contexts sharing 1-4 variables (scalar or function-valued, accessed through indices) through the real LocalSharedManager with lock time-outs drawn from 0 / 1 ms / 50 ms / 1 s; each context runs 1-5 sections that increment, transfer an amount between two variables, or read/write unique values in a drawn order (opposite orders occur), failing 1-2 times at drawn positions; schedules pre-empt at every yield and stall tasks while they hold locks; the history of committed sections (invoke/return stamped with event sequence numbers) is checked for strict serializability with porcupine against a multi-register transaction model outside the simulation; no operation on a shared variable takes longer than the variable's lock time-out (net of the simulated time the simulator itself took from the task: injected stalls and waiting to be scheduled); all contexts must finish within 30 simulated minutes; non-trivial = at least 2 committed sections and a pre-emption or lock time-out; distinct = distinct interleaving digests",
+		Rule: "one run = 2-5 archetype contexts sharing 1-4 variables (scalar or function-valued, accessed through indices) through the real LocalSharedManager (in a third of the runs every handle wrapped in Persistent on an in-memory badger store, as raftkvs binds its persisted variables) with lock time-outs drawn from 0 / 1 ms / 50 ms / 1 s; each context runs 1-5 sections that increment, transfer an amount between two variables, or read/write unique values in a drawn order (opposite orders occur), failing 1-2 times at drawn positions; schedules pre-empt at every yield and stall tasks while they hold locks; the history of committed sections (invoke/return stamped with event sequence numbers) is checked for strict serializability with porcupine against a multi-register transaction model outside the simulation; from a section's first access to a variable until its body returns no other context's access to that variable succeeds (mutual exclusion); no operation on a shared variable takes longer than the variable's lock time-out (net of the simulated time the simulator itself took from the task: injected stalls and waiting to be scheduled); all contexts must finish within 30 simulated minutes; non-trivial = at least 2 committed sections and a pre-emption or lock time-out; distinct = distinct interleaving digests",
 		Real:        realU,
 		Stub:        stubU,
 		Assumptions: []string{"porcupine time-outs (20 s) are counted as inconclusive, never reported", "Persistent wrapping of shared variables is exercised by C01"},
-		MustProbe:   []string{"lock_timeout", "second_lock_in_section", "attempt_aborted", "three_or_more_sharers"}, MinRunsForProbes: 2000,
+		MustProbe:   []string{"lock_timeout", "second_lock_in_section", "attempt_aborted", "three_or_more_sharers", "persistent_wrapped"}, MinRunsForProbes: 2000,
 	},
 	{
 		ID: "C13", Pkg: "checks/c13", Instr: coreInstr,
 		QuickRuns: 20000, ThoroughRuns: 1000000, QuickBudgetS: 60, ThoroughBudgetS: 1200, ShrinkS: 45,
-		Rule: "one run = 2-4 nodes each with the real NewCRDT resource (GCounter value, broadcaster, merger, net/rpc receiver) over the simulated network, broadcast interval 5 or 50 ms, send/dial time-out 0.1 or 2 s, peers coming up late, in a third of the runs a merge queue of 1-2 slots instead of 100 (instrumentation rule R8: literal queue capacities are per-run knobs); each node runs 1-4 sections: read, or write an increment that is a distinct power of two per ATTEMPT, hold the section open for 0-3 intervals (ticks and incoming merges land inside it), then commit or abort 1-2 times; afterwards every node keeps reading once per interval; oracles on every read: no bit of an aborted attempt, no bit of a section still in flight at another node, no bit seen in an earlier committed read missing (received state is never lost); after updates stop every node must read exactly the union of committed bits within 20 intervals + 2 send time-outs + 1 s; non-trivial = at least one committed update and a pre-emption; distinct = distinct interleaving digests",
+		Rule: "one run = 2-4 nodes each with the real NewCRDT resource (GCounter value, broadcaster, merger, net/rpc receiver) over the simulated network, broadcast interval 5 or 50 ms, send/dial time-out 0.1 or 2 s, peers coming up late, in a third of the four-node runs two replicas going silent for good (connections open, nothing arrives: the other two must keep converging), in a third of the runs a merge queue of 1-2 slots instead of 100 (instrumentation rule R8: literal queue capacities are per-run knobs); each node runs 1-4 sections: read, or write an increment that is a distinct power of two per ATTEMPT, hold the section open for 0-3 intervals (ticks and incoming merges land inside it), then commit or abort 1-2 times; afterwards every node keeps reading once per interval; oracles on every read: no bit of an aborted attempt, no bit of a section still in flight at another node, no bit seen in an earlier committed read missing (received state is never lost); after updates stop every node must read exactly the union of committed bits within 20 intervals + 2 send time-outs + 1 s; non-trivial = at least one committed update and a pre-emption; distinct = distinct interleaving digests",
 		Real:        realU,
 		Stub:        stubU,
 		Assumptions: []string{"GCounter with power-of-two increments stands for any CRDT value (attribution of updates); AWORSet/LWWSet values are covered at value level by C12", "no connection resets or partitions are injected here (the property speaks of connected peers)"},
-		MustProbe:   []string{"write_section_aborted", "section_held_open_after_write"}, MinRunsForProbes: 1000,
+		MustProbe:   []string{"write_section_aborted", "section_held_open_after_write", "two_peers_silent", "small_merge_queue"}, MinRunsForProbes: 1000,
 	},
 	{
 		ID: "C11", Pkg: "checks/c11", Instr: coreInstr, Extra: map[string][]string{"distsys/resources": {"resources_access.go"}},
@@ -155,7 +155,7 @@ var checks = []Check{
 	{
 		ID: "C02", Pkg: "checks/c02", Instr: coreInstr,
 		QuickRuns: 256, ThoroughRuns: 1000000, QuickBudgetS: 150, ThoroughBudgetS: 1500, ShrinkS: 60,
-		Rule: "one run = one shipped spec/Go pair (drawn) whose real generated archetypes run in the spec world with small drawn constants under a seeded schedule and seeded resolution of every either/with and environment choice; the full spec state (pc, stack, every archetype local under its PlusCal-translation name, every global) is recorded after every committed step; TLC evaluates the spec's own Init on the first state and Next (or stuttering) on every consecutive pair (batches of 16 (quick) or 100 (thorough) traces, one TLC start per system and constant assignment; the quick tier draws constants from a small set per system, the thorough tier from the full ranges; for load_balancer and proxy, whose checked-in TLA+ translation is stale with respect to the PlusCal algorithm PGo generated with the Go code, the scratch copy is re-translated with the PlusCal translator first); non-trivial = at least 3 validated steps; distinct = distinct interleaving digests; counters spec_steps_<system> give the validated steps per pair",
+		Rule: "one run = one shipped spec/Go pair (drawn) whose real generated archetypes run in the spec world with small drawn constants under a seeded schedule and seeded resolution of every either/with and environment choice; the full spec state (pc, stack, every archetype local under its PlusCal-translation name, every global) is recorded after every committed step; TLC evaluates the spec's own Init on the first state and Next (or stuttering) on every consecutive pair, and when the generated Go reports an assertion failure TLC must find the spec's own action failing an assertion in that state too (batches of 16 (quick) or 100 (thorough) traces, one TLC start per system and constant assignment; the quick tier draws constants from a small set per system, the thorough tier from the full ranges; for load_balancer and proxy, whose checked-in TLA+ translation is stale with respect to the PlusCal algorithm PGo generated with the Go code, the scratch copy is re-translated with the PlusCal translator first); non-trivial = at least 3 validated steps; distinct = distinct interleaving digests; counters spec_steps_<system> give the validated steps per pair",
 		Real: append([]string{"the specification's next-state relation: the .tla file read from /repo at check time, evaluated by TLC (tla2tools.jar)"}, realA...), Stub: stubA,
 		Assumptions: []string{"TLC is the reference evaluator of the spec's Next; values are printed by an independent TLA+ printer (verif/tlc.Render)", "pairs not wired yet are listed in DESIGN.md; only wired pairs are claimed"},
 		MustProbe:   []string{"system_locksvc", "system_raftkvs", "system_pbkvs", "system_dqueue", "system_load_balancer", "system_proxy", "system_shcounter", "system_gcounter", "system_shopcart"}, MinRunsForProbes: 200,
@@ -180,7 +180,7 @@ var checks = []Check{
 	{
 		ID: "C14", Pkg: "checks/c14", Instr: coreInstr,
 		QuickRuns: 40000, ThoroughRuns: 2000000, QuickBudgetS: 60, ThoroughBudgetS: 1200, ShrinkS: 45,
-		Rule: "one run = the generated AReplica x 1-4 and AClient x 1-3 archetypes of systems/pbkvs in the spec world (ReliableFIFOLink per <<id, typ>>, NetworkToggle, PerfectFD, LeaderElection on the alive set, NetworkBufferLength, FileSystem, Channel of 1-6 client requests with unique Put values), EXPLORE_FAIL in two thirds of the runs with every mayFail branch a stream decision, bounded so that one replica survives; the stream picks which archetype takes its next label; after every committed step ConsistencyOK as written in the spec (primary at sndResp => every alive replica holds the primary's fs), no spec assertion fails; the clients' history is checked with porcupine against a register; non-trivial = at least 2 client operations and 2 replicas; distinct = distinct interleaving digests",
+		Rule: "one run = the generated AReplica x 1-4 and AClient x 1-3 archetypes of systems/pbkvs in the spec world (ReliableFIFOLink per <<id, typ>>, NetworkToggle, PerfectFD, LeaderElection on the alive set, NetworkBufferLength, FileSystem, Channel of 1-6 client requests with unique Put values), EXPLORE_FAIL in two thirds of the runs with every mayFail branch a stream decision, bounded so that one replica survives (half of those runs with 3+ replicas concentrate crashes on a primary half-way through replicating a request); the stream picks which archetype takes its next label; after every committed step ConsistencyOK as written in the spec (primary at sndResp => every alive replica holds the primary's fs), no spec assertion fails; the clients' history is checked with porcupine against a register; non-trivial = at least 2 client operations and 2 replicas; distinct = distinct interleaving digests",
 		Real: realA, Stub: stubA,
 		Assumptions: []string{"perfect failure detector (fd written only by the failing replica's failLabel), as the property states", "KEY_SET = {KEY1} as in the spec"},
 		MustProbe:   []string{"replica_crashed", "primary_about_to_answer", "primary_crashed_mid_replication", "ops_with_crashes"}, MinRunsForProbes: 1000,
@@ -197,11 +197,11 @@ var checks = []Check{
 	{
 		ID: "C18", Pkg: "checks/c18", Instr: coreInstr, Env: []string{"PGO_TRACE_DIR=@SCRATCH"},
 		QuickRuns: 30000, ThoroughRuns: 1500000, QuickBudgetS: 60, ThoroughBudgetS: 1200, ShrinkS: 45,
-		Rule: "one run = 2-4 archetypes on the real runtime with tracing and vector clocks on (PGO_TRACE_DIR set at process start), each with a scalar local, a function-valued local, a TCP mailbox (simulated network), Go-channel links to higher-numbered peers (OutputChan -> InputChan) and 0-2 shared variables (LocalSharedManager); drawn programs of 1-4 sections x 1-5 operations (read/assign/increment the scalar, chained assignments, indexed writes and reads, whole-function reads, channel and mailbox sends and receives, shared-variable reads and writes), attempts aborting at drawn positions 1-2 times, read and lock time-outs; every sent value is unique. The trace is taken from the in-memory recorder (2/3 of the runs) or parsed from the JSON files the runtime writes under PGO_TRACE_DIR (1/3). Oracles: one event per attempt in program order with the outcome the resources saw (a spy resource's Commit/Abort), exactly the reads and writes the body performed with their indices and values, previous-value hints of locals (including pc) equal to the value just before the write, replaying the logged writes of committed events reproduces every logged read of local state, own clock component = ordinal of the event, clocks never go back, and the clock of every attempt that read a value sent or written by another archetype's attempt dominates that attempt's logged clock; non-trivial = at least 4 attempts; distinct = distinct interleaving digests",
+		Rule: "one run = 2-4 archetypes on the real runtime with tracing and vector clocks on (PGO_TRACE_DIR set at process start), each with a scalar local, a function-valued local, a TCP mailbox (simulated network), Go-channel links to higher-numbered peers (OutputChan -> InputChan) and 0-2 shared variables (LocalSharedManager); drawn programs of 1-4 sections x 1-5 operations (read/assign/increment the scalar, chained assignments, indexed writes and reads, whole-function reads, channel and mailbox sends and receives, shared-variable reads and writes), attempts aborting at drawn positions 1-2 times or running to the end of their body and being refused at pre-commit, read and lock time-outs; every sent value is unique. The trace is taken from the in-memory recorder (2/3 of the runs) or parsed from the JSON files the runtime writes under PGO_TRACE_DIR (1/3). Oracles: one event per attempt in program order with the outcome the resources saw (a spy resource's Commit/Abort), exactly the reads and writes the body performed with their indices and values, previous-value hints of locals (including pc) equal to the value just before the write, replaying the logged writes of committed events reproduces every logged read of local state, own clock component = ordinal of the event, clocks never go back, and the clock of every attempt that read a value sent or written by another archetype's attempt dominates that attempt's logged clock; non-trivial = at least 4 attempts; distinct = distinct interleaving digests",
 		Real:        realU,
 		Stub:        append([]string{"archetypes: harness-built jump tables calling the interface as generated code does (Read/Write/Goto, RequireArchetypeResourceRef)", "a spy resource (constant value) reporting Commit/Abort to the harness"}, stubU...),
 		Assumptions: []string{"calm network (time-outs far above latency) so that mailbox reconnects (C06 known findings) do not occur", "channel and mailbox links go from lower to higher archetype ids (no wait cycles); shared variables in every direction", "the Done pseudo-label logs no event"},
-		MustProbe:   []string{"trace_from_json_files", "trace_from_recorder", "aborted_attempt_logged", "reads_from_checked", "indexed_local_write", "foreign_value_read_after_send_in_same_attempt", "read_timeout_or_lock_timeout"}, MinRunsForProbes: 1000,
+		MustProbe:   []string{"trace_from_json_files", "trace_from_recorder", "aborted_attempt_logged", "attempt_refused_at_precommit", "reads_from_checked", "indexed_local_write", "foreign_value_read_after_send_in_same_attempt", "read_timeout_or_lock_timeout"}, MinRunsForProbes: 1000,
 	},
 }
 
